@@ -17,7 +17,7 @@ sys.path.insert(0, vlib.REPO)
 from pony import orm
 from pony.orm import core, decompiling
 
-TIMEOUT = float(os.environ.get('VERIF_STEP_TIMEOUT', '20'))
+TIMEOUT = float(os.environ.get('VERIF_STEP_TIMEOUT', '60'))
 
 
 class Stuck(Exception):
